@@ -153,7 +153,81 @@ def _threaded_workload(cls, cap, nthreads, nops, rnd, rec, keys, vals):
         e.pop("thread", None)
         if e["ret"] is None:
             e["ret"] = ["!unconsumed"]
-    return {"cap": cap, "threadsafe": hasattr(c, "_lock"), "ev": evs}, errs
+    from liquid.utils.lru_cache import ThreadSafeLRUCache as _TS
+    return {"cap": cap, "threadsafe": isinstance(c, _TS), "ev": evs}, errs
+
+
+def _blackbox_workload(cls, cap, nthreads, nops, rnd, keys, vals):
+    """No instrumentation at all: many threads hammer one cache; collect every exception."""
+    c = cls(cap)
+    start = threading.Barrier(nthreads)
+    errs = []
+
+    def worker(r):
+        start.wait()
+        for _ in range(nops):
+            op = r.choice(["get", "set", "set", "del", "contains", "getd", "keys", "values", "items", "len", "iter"])
+            k, v = r.choice(keys), r.choice(vals)
+            try:
+                if op in ("keys", "values", "items", "iter"):
+                    list(iter(c) if op == "iter" else getattr(c, op)())
+                else:
+                    _apply(c, op, k, v)
+            except Exception as ex:  # noqa: BLE001
+                errs.append(repr(ex))
+
+    ths = [threading.Thread(target=worker, args=(random.Random(rnd.random()),)) for _ in range(nthreads)]
+    for t in ths:
+        t.start()
+    for t in ths:
+        t.join()
+    return errs, c
+
+
+def _recorder_selftest(LRUCache, ThreadSafeLRUCache):
+    """The wrappers log at the base-class methods; that is the linearization point only if the public operations go through them.
+    A scripted single-thread run on both classes must give one event per operation and be accepted by LRUCacheTrace.tla."""
+    script = [("set", "k0", "x"), ("set", "k1", "y"), ("get", "k0", ""), ("getd", "k2", ""), ("getd", "k1", ""), ("contains", "k1", ""),
+              ("set", "k2", "z"), ("del", "k0", ""), ("len", "", ""), ("set", "k0", "x"), ("get", "k1", "")]
+    rec = instrument.LRURecorder()
+    try:
+        instrument.install_lru(rec)
+    except MachineryError as e:
+        instrument.unwrap_all()
+        return False, str(e)
+    traces = []
+    try:
+        for cls in (LRUCache, ThreadSafeLRUCache):
+            c = cls(2)
+            for op, k, v in script:
+                try:
+                    _apply(c, op, k, v)
+                except KeyError:
+                    pass
+            listing = c.keys()
+            e = getattr(rec.tls, "last", None)
+            got = list(listing)
+            evs = rec.events.pop(id(c), [])
+            if len(evs) != len(script) + 1:
+                return False, f"{cls.__name__}: {len(evs)} events for {len(script) + 1} operations"
+            evs[-1]["ret"] = got
+            for ev in evs:
+                ev.pop("thread", None)
+                if ev["ret"] is None:
+                    ev["ret"] = ["!unconsumed"]
+            traces.append({"cap": 2, "threadsafe": cls is ThreadSafeLRUCache, "ev": evs})
+    except Exception as e:   # noqa: BLE001
+        return False, "recording failed: " + repr(e)[:120]
+    finally:
+        instrument.unwrap_all()
+    try:
+        acc, diags, r = tracecheck.validate("LRUCacheTrace", "cfg/LRUCacheTrace.cfg", traces, diag_cfg="cfg/LRUCacheTrace_diag.cfg",
+                                            consts={"Keys": tracecheck.tla_set(["k0", "k1", "k2", ""]), "Vals": tracecheck.tla_set(["x", "y", "z", ""])})
+    except MachineryError as e:
+        return False, "trace spec could not read the self-test: " + str(e)[:120]
+    if len(acc) != len(traces):
+        return False, "the scripted sequential run is not accepted: " + str(list(diags.values())[:1])[:160]
+    return True, ""
 
 
 def run(tier: str) -> int:
@@ -213,15 +287,38 @@ def run(tier: str) -> int:
     if not rdev.violated:
         raise MachineryError("deviation config LiveIterators=TRUE no longer violates anything: MT model is vacuous")
     ck.cov["deviation_demo"] = f"LiveIterators=TRUE violates {rdev.violated}"
-    # ---- C: recorded traces -------------------------------------------------------------
+    # ---- C0: real threads, black box: whatever the implementation looks like inside, no operation may fail and the bound holds ----
+    old = sys.getswitchinterval()
+    sys.setswitchinterval(1e-6)
+    keys = ["k%d" % i for i in range(6)]
+    vals = ["x", "y", "z"]
+    try:
+        for nth, nops in [(2, 60), (4, 40), (8, 30), (16, 20)] * (2 if tier == "quick" else 10):
+            cap = rnd.randint(1, 4)
+            errs, c = _blackbox_workload(ThreadSafeLRUCache, cap, nth, nops, rnd, keys, vals)
+            ck.case(("threads-blackbox", nth, nops, cap))
+            ck.validated()
+            if errs:
+                ck.fail("exception escaped a cache operation under threads", {"errors": errs[:5]}, sig="threads:escape")
+            listing = list(c.keys())
+            if len(c) > cap or len(listing) != len(set(listing)) or len(listing) != len(c):
+                ck.fail("after a threaded workload the cache exceeds its capacity or lists a key twice", {"cap": cap, "len": len(c), "keys": listing}, sig="threads:bound")
+    finally:
+        sys.setswitchinterval(old)
+    # ---- C: recorded traces (only if the recorder fits this implementation: self-test on a scripted sequential run) ----------------
+    fits, why = _recorder_selftest(LRUCache, ThreadSafeLRUCache)
+    if not fits:
+        ck.cov["thread_traces"] = "not recorded: " + why
+        print("# NOTE C24: event traces are not validated on this tree (the recorder's wrappers do not fit the implementation: %s); "
+              "transition replay, interleaving replay and the black-box thread workloads still ran" % why)
+        ck.assumptions += ["real-thread event traces were NOT validated: " + why]
+        return ck.finish()
     rec = instrument.LRURecorder()
     instrument.install_lru(rec)
     traces = []
     old = sys.getswitchinterval()
     sys.setswitchinterval(1e-6)
     try:
-        keys = ["k%d" % i for i in range(6)]
-        vals = ["x", "y", "z"]
         plan = [(2, 40), (3, 40), (4, 30), (8, 20), (16, 12)] * (2 if tier == "quick" else 12)
         for nth, nops in plan:
             tr, errs = _threaded_workload(ThreadSafeLRUCache, rnd.randint(1, 4), nth, nops, rnd, rec, keys, vals)
